@@ -1129,7 +1129,7 @@ def r047(an, rep):
             f"{len(W)} Args witnesses (every kind, none, an empty name, repeated names): the number of parameter slots" if not bad else bad[0] + (f" (+{len(bad) - 1} more)" if len(bad) > 1 else ""))
 
 
-def r04f(an, rep, rule="R04.W"):
+def r04f(an, rep, rule="R04.W", roundtrip=False):
     """The function that builds a CodeData from a code object, folded over witness code objects (as records of their co_* attributes) for every
     kind of scope; the flag-word conversion is replaced by the reference table of the interpreter (C11 decides that conversion).  Expected, from
     how CPython binds arguments (co_varnames = positional..., keyword-only..., *args, **kwargs; co_posonlyargcount from 3.8) and from
@@ -1146,6 +1146,14 @@ def r04f(an, rep, rule="R04.W"):
             top = f
     if top is None:
         raise AnalysisError("the function that builds a CodeData from a code object was not found")
+    enc_top = None
+    if roundtrip:
+        for f in an.closure("to_code"):
+            if isinstance(f.node, ast.FunctionDef) and f.cls is None and len(f.params) == 1 and any(isinstance(c, ast.Call) and isinstance(c.func, ast.Name) and c.func.id == "CodeType" for c in ast.walk(f.node)):
+                enc_top = f
+        if enc_top is None:
+            raise AnalysisError("the function that builds a code object from a CodeData was not found")
+    import reference.contracts as _C
     FN = ("OPTIMIZED", "NEWLOCALS")
     # (name, flags, argcount, posonly, kwonly, varnames, consts, cellvars, co_name, expected (posonly, pos_or_kw, var_pos, kwonly, var_kw) or None, docstring, type)
     W = [
@@ -1185,6 +1193,7 @@ def r04f(an, rep, rule="R04.W"):
                 raise ValueError("unknown flag bits")
             return out
         bad = []
+        bad_rt = []
         for wname, flags, argc, posonly, kwonly, varnames, consts, cellvars, coname, exp_args, exp_doc, exp_type in W:
             if V < (3, 8):
                 if exp_args not in (None, "nofunc") and posonly:
@@ -1206,7 +1215,13 @@ def r04f(an, rep, rule="R04.W"):
                 code["co_linetable"] = asm_linetable([(0, 0)], 4)
             else:
                 code["co_lnotab"] = b""
-            ev, _R = package_evaluator(an, top.module, V, stubs={"to_flags_data": to_flags, "CodeType": type("NotACodeObject", (), {})})
+            def from_flags(names_):
+                w_ = 0
+                for n_ in names_:
+                    w_ |= val_of[n_]
+                return w_
+            _NoCode = type("NotACodeObject", (), {})
+            ev, _R = package_evaluator(an, top.module, V, stubs={"to_flags_data": to_flags, "from_flags_data": from_flags, "CodeType": _NoCode})
             try:
                 got = ev.call_method(top.node, code)
             except BlockOutcome as o:
@@ -1246,6 +1261,32 @@ def r04f(an, rep, rule="R04.W"):
                         why = f"parameters (positional-only, positional-or-keyword, *, keyword-only, **) = {gota}; CPython binds {exp_args}"
             if why:
                 bad.append(f"{wname}: {why}")
+            elif roundtrip:
+                # ... and back: what the encoder hands to CodeType, slot by slot, is what the witness code object holds
+                slots = _C.CODE_SLOTS[V]
+                ev.lib["CodeType"] = lambda *a_: Obj({"__cls__": "code_out", "args": a_})
+                try:
+                    out = ev.call_method(enc_top.node, got)
+                except BlockOutcome as o:
+                    bad_rt.append(f"{wname}: to_code stops at `{norm_src(o.node)[:60]}`")
+                    continue
+                except AnalysisError:
+                    raise
+                except Exception as ex:  # noqa: BLE001 - a gap of the evaluator, never a verdict
+                    raise AnalysisError(f"{enc_top.qual}: not evaluable on the data decoded from the witness code object '{wname}' ({type(ex).__name__}: {ex})")
+                if not isinstance(out, Obj) or out.get("__cls__") != "code_out" or len(out["args"]) != len(slots):
+                    bad_rt.append(f"{wname}: CodeType is called with {len(out['args']) if isinstance(out, Obj) and 'args' in out else '?'} arguments, code() of {vname(V)} takes {len(slots)}")
+                    continue
+                for sname, val in zip(slots, out["args"]):
+                    attr = "co_" + sname
+                    want = code.get(attr)
+                    if repr(val) != repr(want) or type(val) is not type(want):
+                        bad_rt.append(f"{wname}: slot {sname} of the re-encoded object is {ascii(val)[:60]}, the code object has {attr} = {ascii(want)[:60]}")
+                        break
+        if roundtrip:
+            rep.add(rule, f"{enc_top.qual}::round trip of witness code objects [{vname(V)}]", not bad_rt, loc(enc_top.module, enc_top.node),
+                    f"{len(W) - len(bad)} witness code objects decoded and encoded again: every argument of CodeType equals the attribute it came from (counts, flags word, code units, tables, names, first line, line table)"
+                    if not bad_rt else bad_rt[0] + (f" (+{len(bad_rt) - 1} more)" if len(bad_rt) > 1 else ""))
         rep.add(rule, f"{top.qual}::witness code objects [{vname(V)}]", not bad, loc(top.module, top.node),
                 f"{len(W)} witness code objects (every parameter kind, bare *, empty / bytes first constant, generator expression, coroutine, async generator, cell owner, module, class body with __class__)"
                 if not bad else bad[0] + (f" (+{len(bad) - 1} more)" if len(bad) > 1 else ""))
